@@ -317,11 +317,33 @@ structure AInv (a : Api) : Prop where
   inv : Inv a.s
   sok : SOk a.s a.streams
 
-/-- `a'` satisfies the invariant and has the same unresolved stream items as `a` -/
-def Keeps (a a' : Api) : Prop := AInv a' ∧ itemsOfSS a'.streams = itemsOfSS a.streams
+/-- the streams, their ids and their unresolved items — without the ready queues -/
+def shape (ss : List (Nat × StreamSt)) : List (Nat × List Nat) := ss.map fun p => (p.1, p.2.items)
 
-theorem Keeps.refl {a : Api} (h : AInv a) : Keeps a a := ⟨h, rfl⟩
-theorem Keeps.trans {a b c : Api} (h1 : Keeps a b) (h2 : Keeps b c) : Keeps a c := ⟨h2.1, h2.2.trans h1.2⟩
+theorem wakeAll_shape (ss : List (Nat × StreamSt)) (w : Option Nat) : shape (wakeAll ss w) = shape ss := by
+  unfold wakeAll shape
+  rw [List.map_map]
+  apply List.map_congr_left
+  intro p _
+  simp only [Function.comp, wake_items]
+
+theorem itemsOfSS_shape (ss : List (Nat × StreamSt)) : itemsOfSS ss = (shape ss).flatMap Prod.snd := by
+  unfold itemsOfSS shape
+  induction ss with
+  | nil => rfl
+  | cons p ps ih => simp only [List.flatMap_cons, List.map_cons, ih]
+
+/-- `a'` satisfies the invariant, has the same streams with the same unresolved items as `a` (only ready queues may differ),
+and the records of the items' handles are those of `a` -/
+def Keeps (a a' : Api) : Prop :=
+  AInv a' ∧ shape a'.streams = shape a.streams ∧ ∀ w ∈ itemsOfSS a.streams, a'.s.hs w = a.s.hs w
+
+theorem Keeps.items {a a' : Api} (h : Keeps a a') : itemsOfSS a'.streams = itemsOfSS a.streams := by
+  rw [itemsOfSS_shape, itemsOfSS_shape, h.2.1]
+
+theorem Keeps.refl {a : Api} (h : AInv a) : Keeps a a := ⟨h, rfl, fun _ _ => rfl⟩
+theorem Keeps.trans {a b c : Api} (h1 : Keeps a b) (h2 : Keeps b c) : Keeps a c :=
+  ⟨h2.1, h2.2.1.trans h1.2.1, fun w hw => (h2.2.2 w (by rw [h1.items]; exact hw)).trans (h1.2.2 w hw)⟩
 
 theorem fresh_not_item (s : State) (ss : List (Nat × StreamSt)) (hok : SOk s ss) (w : Nat) (hf : s.hs w = none) :
     w ∉ itemsOfSS ss := by
@@ -333,22 +355,40 @@ theorem keeps_plain (a : Api) (act : Act) (h : AInv a)
     Keeps a { a with s := (step a.s act).1 } := by
   have := sok_step a.s act a.streams h.inv h.sok hact
   rw [hnh, wakeAll_none] at this
-  exact ⟨⟨inv_step _ _ h.inv, this⟩, rfl⟩
+  exact ⟨⟨inv_step _ _ h.inv, this⟩, rfl, fun w hw => hs_step_other a.s act w (hact w hw).1 (hact w hw).2⟩
 
 theorem keeps_dropGuard (a : Api) (c : Nat) (h : AInv a) : Keeps a (a.dropGuard c).1 := by
-  refine ⟨⟨inv_dropGuard a c h.inv, sok_dropGuard a c h.inv h.sok⟩, ?_⟩
-  unfold Api.dropGuard; simp only []; split
-  · simp only [woken_streams', wakeAll_items]
-  · rfl
+  refine ⟨⟨inv_dropGuard a c h.inv, sok_dropGuard a c h.inv h.sok⟩, ?_, ?_⟩
+  · unfold Api.dropGuard; simp only []; split
+    · simp only [woken_streams', wakeAll_shape]
+    · rfl
+  · intro w hw
+    by_cases hwc : w = c
+    · subst hwc
+      have hs : (stamp a.s w).2 ≠ .unit := by
+        intro e
+        have h3 := (stamp_then a.s w h.inv e).2.2
+        rcases item_st a.s a.streams h.sok w hw with e' | e' <;> rw [h3] at e' <;> cases e'
+      rw [dropGuard_s, if_neg hs, stamp_fail a.s w hs]
+    · exact dropGuard_hs_other a c w hwc
 
 theorem keeps_cancelHandle (a : Api) (c : Nat) (h : AInv a) (hin : c ∉ itemsOfSS a.streams) : Keeps a (a.cancelHandle c).1 := by
-  refine ⟨⟨inv_cancelHandle a c h.inv, sok_cancelHandle a c h.inv h.sok hin⟩, ?_⟩
-  unfold Api.cancelHandle; simp only []; split
-  · simp only [woken_streams', wakeAll_items]
-  · rfl
+  refine ⟨⟨inv_cancelHandle a c h.inv, sok_cancelHandle a c h.inv h.sok hin⟩, ?_, ?_⟩
+  · unfold Api.cancelHandle; simp only []; split
+    · simp only [woken_streams', wakeAll_shape]
+    · rfl
+  · intro w hw
+    have hwc : w ≠ c := fun e => hin (e ▸ hw)
+    have : (a.cancelHandle c).1.s = (cancel a.s c).1 := by
+      unfold Api.cancelHandle; simp only []; split
+      · simp only [woken_s]
+      · rfl
+    rw [this]; exact cancel_hs_other a.s c w hwc
 
 theorem keeps_gop_ (a : Api) (c : Nat) (g : GOp) (h : AInv a) : Keeps a (a.gop_ c g) :=
-  ⟨⟨inv_gop_ a c g h.inv, sok_gop_ a c g h.inv h.sok⟩, rfl⟩
+  ⟨⟨inv_gop_ a c g h.inv, sok_gop_ a c g h.inv h.sok⟩, rfl, fun w _ => by
+    show (gop a.s c g).1.hs w = a.s.hs w
+    rw [gop_hs]⟩
 
 theorem keeps_runActs (cands : List Nat) : ∀ (a : Api) (acts : List CandAct), AInv a → Keeps a (a.runActs cands acts) := by
   induction cands with
@@ -468,7 +508,7 @@ theorem lock_live (a : Api) (v : Variant) (h k : Nat) (limit : Limit) (h0 : Nat)
     lockPrelude_live a h k limit h0 [] hd hh hw]
 
 theorem keeps_of_eq (a a' : Api) (h : AInv a) (e1 : a'.s = a.s) (e2 : a'.streams = a.streams) : Keeps a a' := by
-  refine ⟨⟨by rw [e1]; exact h.inv, by rw [e1, e2]; exact h.sok⟩, by rw [e2]⟩
+  refine ⟨⟨by rw [e1]; exact h.inv, by rw [e1, e2]; exact h.sok⟩, by rw [e2], fun w _ => by rw [e1]⟩
 
 /-- an action on the caller's own handle, which is not a stream item -/
 theorem keeps_own (a : Api) (act : Act) (h : Nat) (hi : AInv a) (hnot : h ∉ itemsOfSS a.streams)
@@ -486,7 +526,7 @@ theorem keeps_lock (a : Api) (v : Variant) (h k : Nat) (limit : Limit) (h0 : Nat
     simp only []
     generalize hfuel : ((match limit with | .none => 0 | .soft _ sc => sc.length) + a.s.order.length + 2) = fuel
     have hp := keeps_lockPrelude h k fuel a limit h0 [] hi
-    have hnot1 : h ∉ itemsOfSS (a.lockPrelude h k limit h0 fuel []).1.streams := by rw [hp.2]; exact hnot
+    have hnot1 : h ∉ itemsOfSS (a.lockPrelude h k limit h0 fuel []).1.streams := by rw [hp.items]; exact hnot
     have henq := keeps_own _ (.enqueue h) h hp.1 hnot1 rfl rfl rfl
     have htry := keeps_own _ (.tryKey h) h hp.1 hnot1 rfl rfl rfl
     have hnot2 : h ∉ itemsOfSS ({ (a.lockPrelude h k limit h0 fuel []).1 with
@@ -957,7 +997,7 @@ theorem ainv_cancelAll (l : List Nat) : ∀ (b : Api), AInv b → (∀ h ∈ l, 
     simp only [List.foldl_cons]
     apply ih _ hk.1
     intro h hh
-    rw [hk.2]; exact hnot h (List.mem_cons_of_mem _ hh)
+    rw [hk.items]; exact hnot h (List.mem_cons_of_mem _ hh)
 
 theorem not_owned_not_item (a : Api) (h : Nat) (hn : a.ownedByStream h = false) : h ∉ itemsOfSS a.streams := by
   intro hin
